@@ -15,7 +15,10 @@ EXPLANATION = (
     "ValueSource::is_explicit is false exactly for DefaultValue (table by variant-set evaluation). R6.5 missing-value default: "
     "the default_missing_vals injection in react is dominated by raw_vals.is_empty() and comes after verify_num_args. "
     "R6.6 defaults are not presence: Parser::start_custom_arg records groups only on the source.is_explicit() edge and "
-    "MatchedArg::check_explicit returns false first for non-explicit sources. NOT decided: the combination at run time, globals."
+    "MatchedArg::check_explicit returns false first for non-explicit sources. R6.7 one default: in Parser::add_default_value the first matching conditional default ends the function (neither the "
+    "next condition nor the plain default is reachable after a match, with or without a value), the conditional value comes from "
+    "the matching triple and the plain value from Arg::default_vals, and a condition on an argument that is not in the matches "
+    "is false. NOT decided: the combination at run time, globals."
 )
 TRUSTED = ["rustc MIR", "clapfacts", "lib/vset.py", "derived Ord follows declaration order"]
 ASSUMPTIONS = ["Arg::env reads the environment at definition time (outside this property)"]
@@ -150,3 +153,25 @@ def run(ctx):
                 okf = bool(consts) and not others and all(ce.block_dominates(uw[0].bb, c.bb) for c in ce.calls_to(r"raw_vals_flatten$|Iterator::any$"))
     res.check(okf, "R6.6", "check_explicit-first", ce.where(), "check_explicit returns false for non-explicit sources before evaluating the predicate",
               "MatchedArg::check_explicit no longer rejects default-sourced values first")
+
+
+    # ---- R6.7 exactly one default
+    ad = fx.body("clap_builder::parser::parser::Parser::add_default_value")
+    rs = ad.calls_to(r"Parser::react$")
+    A = [c for c in rs if any(re.match(r"^V1:next\(into_iter\(iter\(arg\.default_vals_ifs\)\)\)#Some\.0\.2$", g) for g in guard_strs(ad, c.bb))]
+    B = [c for c in rs if re.search(r"arg\.default_vals\)", expr(ad, c.args[4]))]
+    res.floor("R6.7", "conditional-default react in add_default_value", len(A), 1)
+    res.floor("R6.7", "plain-default react in add_default_value", len(B), 1)
+    heads = [c for c in ad.calls_to(r"Iterator>?::next$") if re.search(r"default_vals_ifs", expr(ad, c.args[0]))]
+    res.floor("R6.7", "loop over default_vals_ifs", len(heads), 1)
+    if A and B and heads:
+        S = [i for i in ad.reachable(0) if "T:add" in guard_strs(ad, i)]
+        res.floor("R6.7", "blocks on the `add` edge", len(S), 1)
+        leak = [i for i in S if B[0].bb in ad.reachable(i) or heads[0].bb in ad.reachable(i)]
+        res.check(not leak, "R6.7", "first-match-wins", A[0].where(), "after a matching condition neither further conditions nor the plain default are applied",
+                  "after a matching conditional default the %s is still reachable: an argument can receive more than one default" % ("plain default" if any(B[0].bb in ad.reachable(i) for i in S) else "next condition"))
+        res.check(all("T:add" in guard_strs(ad, c.bb) for c in A), "R6.7", "conditional-only-on-match", A[0].where(), "conditional default applied only when its condition holds", "conditional default applied without its condition")
+    adds = ad.locals_named("add")
+    absent = [i for i, j, s_ in ad.stmts() if s_["k"] == "assign" and s_["place"] in adds and any(re.match(r"^!V1:get\(matcher,", g) for g in guard_strs(ad, i))]
+    res.check(bool(absent) and all(op_int(s_["rv"]["op"]) == 0 for i, j, s_ in ad.stmts() if i in absent and s_["k"] == "assign" and s_["place"] in adds and s_["rv"]["k"] == "use"),
+              "R6.7", "condition-false-when-absent", ad.where(), "a condition on an argument without matches is false", "a conditional default fires although the argument it depends on is not in the matches")
